@@ -144,14 +144,14 @@ def initial_schedules(tier, cov, procs):
     return inits, groups
 
 
-def dump_transitions(tier, inits, tmp, cov):
+def dump_transitions(tier, inits, tmp, cov, workers=None):
     '''Run the history generator.  -> per init: {state key: {"state", "ops":
     {op key: {"op","res","to"}}}}'''
     path = os.path.join(tmp, "init.json")
     with open(path, "w") as f:
         json.dump(inits, f, separators=(",", ":"))
     res = core.run_tlc("LFRicSched.tla", TIERS[tier]["dump"],
-                       env={"PV_INIT": path}, workers=1, check=False,
+                       env={"PV_INIT": path}, workers=workers, check=False,
                        timeout=3000)
     if res.invariant_violated or res.error or not res.distinct:
         raise core.MachineryError(
@@ -236,9 +236,14 @@ def run(tier, files=None, procs=None):
            "refused_but_schedule_changed": 0,
            "model_ok_real_refused": 0, "model_refused_real_accepted": 0,
            "divergence_kinds": {}, "codegen_refusal_samples": [],
-           "unsupported_samples": [], "crash_samples": []}
+           "unsupported_samples": [], "crash_samples": [],
+           "refused_changed_samples": [], "model_ok_real_refused_reasons": {}}
+    import time
+    phase = cov["phase_wall_s"] = {}
+    t0 = time.time()
     # 1. design level
     design_check(tier, cov)
+    phase["design"] = round(time.time() - t0, 1)
     tmp = core.mktemp("pv-c23-")
     try:
         # 2. the real invokes and the history generator
@@ -246,6 +251,7 @@ def run(tier, files=None, procs=None):
         import psyclone.psyGen               # noqa
         import psyclone.transformations      # noqa
         import psyclone.dynamo0p3            # noqa
+        t0 = time.time()
         rejected = c23_gen.load(files or c23_gen.corpus(tier), tmp)
         if rejected:
             raise core.MachineryError("corpus files rejected by PSyclone: "
@@ -254,7 +260,11 @@ def run(tier, files=None, procs=None):
         if not inits:
             raise core.MachineryError("no initial schedule could be projected")
         cov["initial_schedules"] = len(inits)
+        phase["parse+initial"] = round(time.time() - t0, 1)
+        t0 = time.time()
         graphs = dump_transitions(tier, inits, tmp, cov)
+        phase["generator"] = round(time.time() - t0, 1)
+        t0 = time.time()
         # 3. replay every transition on every member
         jobs = []
         table = []          # transition id -> (init idx, state key, op key)
@@ -277,6 +287,8 @@ def run(tier, files=None, procs=None):
         # longest jobs first
         jobs.sort(key=lambda j: -len(j[3]) * (1 + len(j[2])))
         results = core.pool_map(c23_gen.work_state, jobs, procs=procs)
+        phase["replay"] = round(time.time() - t0, 1)
+        t0 = time.time()
         cases, origins, index = [], [], {}
 
         def add_case(case, origin):
@@ -309,8 +321,16 @@ def run(tier, files=None, procs=None):
                     cov["real_refused"] += 1
                     if kind == "refused-changed":
                         cov["refused_but_schedule_changed"] += 1
+                        if len(cov["refused_changed_samples"]) < 3:
+                            cov["refused_changed_samples"].append(
+                                {"member": member, "op": op_text(mt["op"]),
+                                 "history": [op_text(o) for o in jobs_path(
+                                     jobs, member, skey)], "why": t["why"]})
                     if mt["res"] == "ok":
                         cov["model_ok_real_refused"] += 1
+                        why = t["why"][-70:]
+                        cov["model_ok_real_refused_reasons"][why] = \
+                            cov["model_ok_real_refused_reasons"].get(why, 0) + 1
                     continue
                 if kind == "crashed":
                     cov["real_crashed"] += 1
@@ -329,8 +349,8 @@ def run(tier, files=None, procs=None):
                                     cov["codegen_refusal_samples"]]:
                         cov["codegen_refusal_samples"].append(
                             {"member": member, "op": op_text(mt["op"]),
-                             "history": [op_text(o) for o in res_path(
-                                 jobs_path(jobs, member, skey))],
+                             "history": [op_text(o) for o in jobs_path(
+                                 jobs, member, skey)],
                              "why": t["why"]})
                     continue
                 if kind == "unsupported":
@@ -355,6 +375,7 @@ def run(tier, files=None, procs=None):
         cov["evaluations"] = len(cases)
         # 4. TLC decides
         bad, div = validate(cases, tmp, cov)
+        phase["trace"] = round(time.time() - t0, 1)
     finally:
         shutil.rmtree(tmp, ignore_errors=True)
     for idx in sorted(set(div) - set(bad)):
@@ -428,10 +449,6 @@ def jobs_path(jobs, member, skey):
         for j in jobs:
             _PATHS[(tuple(j[0]), j[1])] = j[2]
     return _PATHS[(tuple(member), skey)]
-
-
-def res_path(path):
-    return path
 
 
 def describe(origin, detail_of):
